@@ -49,6 +49,11 @@ type meekServer struct {
 	// header announces n bytes, fewer arrive, the connection ends); for the
 	// server the whole body has gone out
 	cutBodyAtReq int
+	// failAtReq > 0: the first request from that one on that carries data is
+	// answered 503 once (a fault in front of the bridge: the body is not taken);
+	// the client retries and only what is answered 200 counts as received
+	failAtReq  int
+	failedOnce bool
 }
 
 func (m *meekServer) serve(name string, conn *simnet.Conn) {
@@ -92,6 +97,16 @@ func (m *meekServer) serve(name string, conn *simnet.Conn) {
 		}
 		if len(body) > m.maxBody {
 			m.maxBody = len(body)
+		}
+		if m.failAtReq > 0 && m.requests >= m.failAtReq && !m.failedOnce && len(body) > 0 {
+			m.failedOnce = true
+			c.S.Count("fault.http-503-on-a-request-with-data", 1)
+			hdr := "HTTP/1.1 503 Service Unavailable\r\nContent-Length: 0\r\n\r\n"
+			m.inFlight--
+			if _, err := conn.Write([]byte(hdr)); err != nil {
+				return
+			}
+			continue
 		}
 		if bad := patCheck(0, m.upGot, body); bad >= 0 && !m.faulty {
 			c.Violate("C16/upstream-corrupted", "request %d (%d bytes): body byte %d is not byte %d of what the application wrote (loss, duplication or reordering)", m.requests, len(body), bad, m.upGot+int64(bad))
@@ -181,9 +196,11 @@ func runC16(c *harness.Ctx) {
 			srv.dropAtReq = 1 + t.Draw("drop.at", 6)
 		case 4, 5:
 			srv.cutBodyAtReq = 1 + t.Draw("cutbody.req", 6)
+		case 2:
+			srv.failAtReq = 1 + t.Draw("fail.req", 4)
 		}
 	}
-	c.Info["drop_after_request"], c.Info["cut_body_of_answer"] = srv.dropAtReq, srv.cutBodyAtReq
+	c.Info["drop_after_request"], c.Info["cut_body_of_answer"], c.Info["answer_503_once_from_request"] = srv.dropAtReq, srv.cutBodyAtReq, srv.failAtReq
 	c.Info["up_writes"], c.Info["down_total"], c.Info["resp_kind"], c.Info["close_at_ms"], c.Info["front"] = upPlan, srv.downTotal, respKind, closeAt, front
 	policy := []int{simnet.ChunkBurst, simnet.ChunkAll, simnet.ChunkMSS, simnet.ChunkRand, simnet.ChunkBoundary}[t.Draw("chunk", 5)]
 	lat := []time.Duration{0, 0, time.Millisecond, 30 * time.Millisecond}[t.Draw("lat", 4)]
